@@ -29,7 +29,7 @@ INFO = {
                    "x/norm. FINDING (recorded): exp calls the truthiness-based default filter on x*x for numeric operands, "
                    "which raises for array-valued coefficients. NOT decided: the numerical power-series identities, the "
                    "Study-number formula assembled as text in codegen_sqrt, domains.",
-    "decided": ["C19.outerexp", "C19.outertrig", "C19.sqrt", "C19.str-embeds", "C19.exp-branches", "C19.no-truthiness", "C19.norm", "C07.pow"],
+    "decided": ["C19.outerexp", "C19.outertrig", "C19.sqrt", "C19.exp-branches", "C19.no-truthiness", "C19.norm", "C07.pow"],
     "not_decided": ["that the Study-number formula is a square root numerically (only its structure c, 1/(2c), <a^2-(bI)^2> is compared)", "floating-point accuracy and domain boundaries",
                     "that the selected scalar functions satisfy the power-series identities (trusted numpy/sympy)"],
     "assumptions": ["outer product of blades is the table sign between disjoint blades (C01, C03)"],
@@ -575,99 +575,3 @@ def no_truthiness(ctx):
 def norm(ctx):
     """norm = sqrt(normsq(x)), normalized = x / norm(x) (OPT)."""
     norm_trees(ctx, ctx.repo, "MultiVector")
-
-
-# --------------------------------------------------------------------------- coefficients embedded in source text
-def _ratfun(node):
-    """(numerator, denominator) polynomials of an arithmetic expression tree (names are variables)."""
-    from ..astx import Poly
-    from fractions import Fraction as F
-    if isinstance(node, ast.Expression):
-        return _ratfun(node.body)
-    if isinstance(node, ast.Constant) and isinstance(node.value, (int, float)) and not isinstance(node.value, bool):
-        return Poly.const(F(node.value)), Poly.const(1)
-    if isinstance(node, ast.Name):
-        return Poly.atom(node.id), Poly.const(1)
-    if isinstance(node, ast.UnaryOp) and isinstance(node.op, (ast.USub, ast.UAdd)):
-        n, d = _ratfun(node.operand)
-        return (-n if isinstance(node.op, ast.USub) else n), d
-    if isinstance(node, ast.BinOp):
-        if isinstance(node.op, ast.Pow):
-            if not (isinstance(node.right, ast.Constant) and isinstance(node.right.value, int) and node.right.value >= 0):
-                raise ValueError("non-integer power")
-            n, d = _ratfun(node.left)
-            rn, rd = Poly.const(1), Poly.const(1)
-            for _ in range(node.right.value):
-                rn, rd = rn * n, rd * d
-            return rn, rd
-        (an, ad), (bn, bd) = _ratfun(node.left), _ratfun(node.right)
-        if isinstance(node.op, ast.Add):
-            return an * bd + bn * ad, ad * bd
-        if isinstance(node.op, ast.Sub):
-            return an * bd - bn * ad, ad * bd
-        if isinstance(node.op, ast.Mult):
-            return an * bn, ad * bd
-        if isinstance(node.op, ast.Div):
-            if bn.is_zero():
-                raise ValueError("division by zero")
-            return an * bd, ad * bn
-    raise ValueError(f"not an arithmetic expression: {ast.dump(node)[:60]}")
-
-
-STR_REPS = {
-    # what codegen_sqrt formats into source text: the scalar symbol, and the Study norm a*a - bI*bI (a sum whose later
-    # terms are positive or negative according to the squares of the blades of bI), possibly a fraction
-    "symbol": ([[1, "a"]], [[1]]),
-    "sum of squares": ([[1, "a", "a"], [1, "a1", "a1"]], [[1]]),
-    "difference of squares": ([[1, "a", "a"], [-1, "a1", "a1"]], [[1]]),
-    "one positive and two negative squares": ([[1, "a", "a"], [-1, "a1", "a1"], [-1, "a2", "a2"]], [[1]]),
-    "mixed signs": ([[1, "a", "a"], [1, "a1", "a1"], [-1, "a2", "a2"]], [[1]]),
-    "fraction of sums": ([[1, "a"], [-1, "b"]], [[1, "c"], [-1, "d"]]),
-}
-
-
-@rule("C19.str-embeds", props=["C19", "C17"], min_instances=6, mutants=[
-    ("brackets decided on the printed text (a sum of negative terms gets none)", ("polynomial", "        numer_str = f\"({self.numer})\" if len(self.numer) > 1 else f\"{self.numer}\"", "        numer_str = str(self.numer).replace(\" + -\", \" - \")\n        if \" + \" in numer_str:\n            numer_str = f\"({numer_str})\"")),
-    ("sums are printed without brackets", ("polynomial", "        numer_str = f\"({self.numer})\" if len(self.numer) > 1 else f\"{self.numer}\"", "        numer_str = f\"{self.numer}\"")),
-], rewrites=[
-    ("minus signs instead of + -1*", ("polynomial", "        numer_str = f\"({self.numer})\" if len(self.numer) > 1 else f\"{self.numer}\"", "        numer_str = f\"({self.numer})\".replace(\" + -\", \" - \") if len(self.numer) > 1 else f\"{self.numer}\"")),
-])
-def str_embeds(ctx):
-    """codegen_sqrt writes str(coefficient) into the source of the generated function and applies ** and / to it:
-    the text of a RationalPolynomial denotes the polynomial, and still does when a power, a product, a quotient or a
-    minus sign is put next to it (a sum is bracketed) - for the symbol and the Study norms the generator formats."""
-    from .c17 import new_interp, mk, poly_from_args, RP
-    repo = ctx.repo
-    q = f"{RP}.__str__"
-    fn = ctx.func(q)
-    for label, (numer, denom) in STR_REPS.items():
-        c = f"{q}#{label}"
-        it = new_interp(repo)
-        try:
-            v = mk(it, "RationalPolynomial", [list(m) for m in numer], [list(m) for m in denom])
-            out = it.run(q, [v])
-        except NoValue as exc:
-            raise Unknown(c, str(exc), fn)
-        if out[0] == "raise":
-            ctx.violation(c, f"str() raises {out[1]}", fn)
-            continue
-        s = out[1]
-        if not isinstance(s, str):
-            raise Unknown(c, f"str() gives {s!r}", fn)
-        N, D = poly_from_args(numer), poly_from_args(denom)
-        problems = []
-        for what, text, (wn, wd) in (("alone", s, (N, D)), ("under a power", f"{s}**3", (N * N * N, D * D * D)),
-                                     ("under a minus sign", f"-{s}", (-N, D)), ("as a divisor", f"1 / {s}", (D, N)),
-                                     ("as a factor", f"x * {s}", (Poly.atom("x") * N, D))):
-            try:
-                gn, gd = _ratfun(ast.parse(text, mode="eval"))
-            except (SyntaxError, ValueError) as exc:
-                problems.append(f"{what}: {text!r} is not an arithmetic expression ({exc})")
-                continue
-            if not (gn * wd - wn * gd).is_zero():
-                problems.append(f"{what}: {text!r} does not denote what it should")
-        if problems:
-            ctx.violation(c, f"str of ({N!r})/({D!r}) is {s!r}; " + "; ".join(problems[:3]) + ": the square root generated from this text "
-                             f"computes another number", fn)
-        else:
-            ctx.ok(c, fn, text=s)
